@@ -375,7 +375,10 @@ def stopband_metrics(R):
     w, C, nfft = coef_grid(R, ws, math.pi, extra=[ws])
     lvl = np.abs(C).max(axis=0)
     i = int(lvl.argmax())
-    return dict(nfft=nfft, nbins=len(w), ws=ws, lvl=float(lvl[i]) + R.tailmass, lvl_w=float(w[i]), lvl_r=int(np.abs(C[:, i]).argmax()))
+    wn = math.pi * min(1.0, R.L / R.M)                 # the lower Nyquist limit: below it (stopband_begin < 1) nothing aliases, it still is stop band
+    low = lvl[w <= wn]
+    return dict(nfft=nfft, nbins=len(w), ws=ws, lvl=float(lvl[i]) + R.tailmass, lvl_w=float(w[i]), lvl_r=int(np.abs(C[:, i]).argmax()),
+                lvl_low=(float(low.max()) + R.tailmass) if (R.info["q"]["sb"] < 1 and len(low)) else None, bins_low=int(len(low)))
 
 
 # ------------------------------------------------------------------ sine fits on the real resampler, end to end
@@ -455,6 +458,62 @@ def tone_job(c, f_in, amp=0.95, phase0=0.3, nfit=12000, kind="pass", ch=1, chan=
             z = np.exp(-1j * th * k)
             lines.append(2 * abs((r * z).sum()) / len(k) / amp)
     out["image"] = float(max(lines))
+    return out
+
+
+def stop_band_tones(info, ratio, rg, K=8):
+    """K stop-band frequencies (units of the input Nyquist limit), stratified over the WHOLE band from the configured stop-band
+    start to the input Nyquist limit: the first percent above the start, the stretch between the start and the lower Nyquist
+    limit when stopband_begin < 1, the first alias zone, and equal strata of the rest."""
+    nyq_low = min(1.0, 1.0 / ratio)
+    f0, f1 = info["q"]["sb"] * nyq_low, 0.9999
+    if f0 >= f1:
+        return []
+    fs = [f0 + (f1 - f0) * 0.01 * rg.random(), f0 + (f1 - f0) * 0.05 * rg.random()]
+    if info["q"]["sb"] < 1 and nyq_low < f1:
+        fs += [f0 + (nyq_low - f0) * rg.random(), f0 + (nyq_low - f0) * rg.random()]
+    fs.append(min(f1, nyq_low * (1 + 0.2 * rg.random())))                   # just above the lower Nyquist limit: aliases land next to the band edge
+    n = max(1, K - len(fs))
+    for i in range(n):
+        fs.append(f0 + (f1 - f0) * (i + rg.random()) / n)
+    return sorted(f for f in fs if f0 <= f <= f1)[:max(K, len(fs))]
+
+
+def stop_multitone_job(c, seed, nfit=8000, K=8, total_amp=0.9):
+    """Sum of K stratified stop-band tones (amplitudes total_amp / K, random phases) through the real resampler; the output
+    peak beyond the horizon is bounded by 2^-bits x the sum of the amplitudes (superposition: Soxr.C02.stopband_rejection).
+    When the bound fails every tone is re-run alone and the worst one is the failing tone."""
+    info, _ = run(c)
+    ratio = float(c["ir"]) / float(c["orr"])
+    rg = np.random.default_rng(seed)
+    fs = stop_band_tones(info, ratio, rg, K)
+    if not fs:
+        return {"skipped": "no stop band below the input Nyquist limit"}
+    wlo, whi = extents(c, 1.0 / ratio, 1.0)
+    H = wlo + whi + 16
+    N = int(math.ceil((nfit + 2 * H) * ratio)) + 8
+    n = np.arange(N, dtype=float)
+    amp = total_amp / len(fs)
+    ph = rg.uniform(0, 2 * math.pi, len(fs))
+    x = np.zeros(N)
+    for f, p0 in zip(fs, ph):
+        x += amp * np.sin(math.pi * f * n + p0)
+    info, y = run(c, x)
+    a, b = H, len(y) - H
+    if b - a < 200:
+        return {"skipped": "stream too short"}
+    out = dict(engine=info["engine"], bits=bits_of(info), plan=plan_signature(info), pclass=plan_class(info), flags=finding_flags(info),
+               freqs=[float(f) for f in fs], amp_each=amp, sum_amp=amp * len(fs), n_in=N, n_fit=b - a, horizon=H,
+               level=float(np.abs(y[a:b]).max()), sb=info["q"]["sb"], pb=info["q"]["pb"],
+               kinds="+".join(s["kind"] for s in info["stages"]) or "none")
+    if out["level"] > 2.0 ** -out["bits"] * out["sum_amp"]:
+        worst = (0.0, None)
+        for f, p0 in zip(fs, ph):
+            _, y1 = run(c, total_amp * np.sin(math.pi * f * n + p0))
+            lv = float(np.abs(y1[a:b]).max()) / total_amp
+            if lv > worst[0]:
+                worst = (lv, float(f))
+        out["single_level"], out["single_f"] = worst
     return out
 
 
@@ -626,7 +685,10 @@ _PHASE_BITS = {0: 0x30, 25: 0x10, 100: 0x20}
 def apply_knob(rng, c, knob):
     """One knob of the quality spec moved inside its documented range (soxr.h / _soxr_init's validation)."""
     c = dict(c)
-    down = float(c["ir"]) > float(c["orr"])
+    if knob == "ph*":
+        knob = rng.choice(["ph0", "ph25", "ph75", "ph100"])
+    elif knob == "band*":
+        knob = rng.choice(["sb<1", "sb>1", "pb"])
     if knob.startswith("ph"):
         v = int(knob[2:])
         if v in _PHASE_BITS and rng.below(2):
@@ -660,6 +722,35 @@ def soxr_rolloff(c):
     return c.get("qflags", 0) & 3
 
 
+# planner paths that every run has to hit (regular expressions on plan_class); the covering pool is built so that each has
+# cheap members, a run that misses one reports it
+import re
+REQUIRED_CLASSES = [
+    ("dft-only, F-domain up-sampling (power-of-two L)", r"^dft\[Fup\d\+?\]$"),
+    ("dft-only, F-domain down-sampling (M = 2, 4)", r"^dft\[Fdn\d\]$"),
+    ("time-domain decimation M = 3 with block_len % M != 0", r"Tdn3u"),
+    ("time-domain decimation with block_len % M == 0", r"Tdn\d\]"),
+    ("time-domain decimation M = 2 / 4 (stopband_begin > 1)", r"Tdn[24]u?\]"),
+    ("zero-stuffing up-sampling in a dft stage (L = 3, 5)", r"Tup\d"),
+    ("dft stage changing the rate both ways (L > 1 and M > 1)", r"dft\[[FT]up\d\+?,[FT]dn"),
+    ("pre and post dft stages without a poly-phase stage", r"^dft\[[^\]]*\]\+dft\["),
+    ("half-band chain (two or more halvings)", r"^half\*n\+"),
+    ("one half-band stage", r"^half\+"),
+    ("(1.5,2) down-sampling: poly-phase stage + post stage /2", r"^poly\d\+dft\[[FT]dn2u?\]$"),
+    ("up-sampling: pre stage + poly-phase stage + post stage", r"^dft\[Fup2\]\+poly\d\+dft\[Fup"),
+    ("down-sampling: pre stage + poly-phase stage", r"dft\[\]\+poly\d$"),
+    ("up-sampling: pre stage + poly-phase stage", r"^dft\[Fup2\]\+poly\d$"),
+    ("poly-phase stage alone (LQ up-sampling)", r"^poly\d$"),
+]
+REQUIRED_ORDERS = [("coefficient interpolation order 0 (rational poly-phase)", r"poly0"), ("interpolation order 1", r"poly1"),
+                   ("interpolation order 2", r"poly2"), ("interpolation order 3", r"poly3")]
+REQUIRED_ENGINES = ["cr32", "cr32s", "cr64", "cr64s"]
+
+
+def missing_classes(hit, required):
+    return [name for name, rx in required if not any(re.search(rx, h) for h in hit)]
+
+
 def job_planinfo(c):
     try:
         info, _ = run(c)
@@ -668,7 +759,7 @@ def job_planinfo(c):
         return {"error": "harness: " + str(e)[:200]}
 
 
-def cover(rng, knobs, ratios, per_ratio=2, members=3, max_period=64, engines=(0, 1), extra_filter=None):
+def cover(rng, knobs, ratios, per_ratio=2, members=3, max_period=64, engines=(0, 1), extra_filter=None, rtflags=(None,)):
     """Seeded covering set.  Returns (selection, stats): selection = list of dicts {"class", "knob", "members": [cfg, ...]}
     with up to `members` alternative configurations per (plan class, knob) pair (cheapest implementation periods first, the
     order among comparably cheap ones drawn from rng); stats = what the pool contained."""
@@ -680,6 +771,9 @@ def cover(rng, knobs, ratios, per_ratio=2, members=3, max_period=64, engines=(0,
                 c = mkcfg(ir, orr, rec, qf, simd=rng.choice(list(engines)))
                 if rng.below(8) == 0:
                     c["qflags"] = qf | 16                                  # SOXR_DOUBLE_PRECISION
+                rt = rng.choice(list(rtflags))
+                if rt is not None:
+                    c["rtflags"] = rt                                      # SOXR_COEF_INTERP_LOW / HIGH: interpolation order forced
                 c = apply_knob(rng, c, knob)
                 cands.append((knob, c, rng.next()))
     infos = pool_map(job_planinfo, [c for _, c, _ in cands], chunksize=32)
@@ -713,6 +807,95 @@ def cover(rng, knobs, ratios, per_ratio=2, members=3, max_period=64, engines=(0,
 
 # ------------------------------------------------------------------ pool jobs (top level: picklable)
 
+# ------------------------------------------------------------------ known findings of the pinned tree (known_findings.d/signal.json)
+
+_RX_15_2 = re.compile(r"^poly\d\+dft\[[FT]dn2u?\]$")
+
+
+def finding_flags(info):
+    """Which signatures of known_findings.d/signal.json the configuration matches (configuration / plan part only)."""
+    q = info["q"]
+    kinds = [s["kind"] for s in info["stages"]]
+    up = info.get("plan", {}).get("io_ratio", 1.0) < 1
+    return {
+        "F-PH1": fph1_signature(info),
+        "F-SG1": rolloff_of(info) == 0 and any(k.startswith("poly") for k in kinds),
+        "F-SG2": q["sb"] > 1 and bool(_RX_15_2.match(plan_class(info))),
+        "F-SG3": info.get("engine", "") in ("cr32", "cr32s") and bits_of(info) > 19 and up and q["sb"] < 1,
+    }
+
+
+# symptom part of the signatures: metric -> largest measured/bound ratio that still is the known finding (anything above is reported)
+FINDING_SYMPTOM = {
+    "F-PH1": {"stop": 8.0, "img": 8.0, "res": 4.0, "rowsum": 4.0},      # at most 18 dB above 2^-bits (known_findings.d/phase.json)
+    "F-SG1": {"gain": 2.0},                                              # |gain error| in (0.01, 0.02] dB
+    "F-SG2": {"res": None, "img": None},                                 # absolute level <= SG2_LEVEL and at most SG2_RATIO x the bound
+    "F-SG3": {"stop": 1.13},                                             # at most 1 dB above 2^-bits
+}
+SG2_LEVEL = 2.0 ** -13                                                   # absolute residual / image level of F-SG2 (mapped: <= 1.0e-4 at 15 bits)
+SG2_RATIO = 1500.0                                                       # ... and relative to 2^(1-bits) (mapped: 1019 at 33 bits, stopband_begin 1.2)
+
+
+def known_excess(r, metric, m, level=None):
+    """r: a job_rows / tone result carrying "flags"; metric in stop/img/res/rowsum/gain; m = measured/bound (> 1 fails).
+    Returns the id of the known finding that explains the excess, or None (then it is a violation)."""
+    if m <= 1:
+        return None
+    for fid, on in sorted(r.get("flags", {}).items()):
+        if not on or metric not in FINDING_SYMPTOM[fid]:
+            continue
+        cap = FINDING_SYMPTOM[fid][metric]
+        if cap is None:
+            if level is not None and level <= SG2_LEVEL and m <= SG2_RATIO:
+                return fid
+        elif m <= cap:
+            return fid
+    return None
+
+
+def known_text(fid, r, what):
+    return "%s: %s [plan %s, engine %s]" % (r["label"], what, r.get("plan"), r.get("engine"))
+
+
+def probe_f1(c, clause="tone"):
+    """One configuration with the F1 signature sent through the real code (in a child process: F1 can crash at flush).
+    Returns a text when the known misbehaviour shows, None when this member behaves."""
+    try:
+        info, _ = run(c)
+        if "error" in info or not f1_exact(info):
+            return None
+        bits = bits_of(info)
+        ratio = float(c["ir"]) / float(c["orr"])
+        if clause == "dc":
+            N = int(60000 * max(1.0, ratio))
+            _, y = run(c, np.ones(N))
+            q = len(y) // 4
+            dev = float(np.abs(y[q:3 * q] - 1.0).max()) if q else 0.0
+            if dev > 2.0 ** (1 - bits):
+                return "%s [plan %s]: a constant 1.0 comes out off by up to %.3g (bound 2^(1-bits) = %.3g)" % (cfg_label(c), plan_signature(info), dev, 2.0 ** (1 - bits))
+            return None
+        t = tone_job(c, 0.43 * info["q"]["pb"] * min(1.0, 1.0 / ratio), amp=0.9, nfit=6000, kind="pass")
+        if "resid" in t and (t["resid"] > 2.0 ** (1 - bits) or (clause == "image" and t["image"] > 2.0 ** -bits)):
+            return ("%s [plan %s]: in-band tone at %.4f x input Nyquist: gain %.2f dB, fit residual %.3g, strongest image line %.3g (bounds 2^(1-bits) = %.3g, "
+                    "2^-bits)" % (cfg_label(c), plan_signature(info), t["f_in"], t["gain_db"], t["resid"], t["image"], 2.0 ** (1 - bits)))
+        return None
+    except RuntimeError as e:
+        return "%s: the harness process died while streaming (%s)" % (cfg_label(c), str(e)[:120])
+    except Exception:
+        return None
+
+
+def job_rows_first(args):
+    """args = (members, max_phases, max_cost): the first member whose rows fit the phase / cost caps."""
+    r = None
+    for c in args[0]:
+        r = job_rows((c,) + tuple(args[1:]))
+        if "skipped" in r and ("cost cap" in r["skipped"] or "phase cap" in r["skipped"]):
+            continue
+        break
+    return r
+
+
 def job_rows(args):
     c, max_phases = args[0], args[1]
     max_cost = args[2] if len(args) > 2 else 8e6
@@ -735,7 +918,7 @@ def job_rows(args):
                 "L": R.L, "M": R.M, "bits": pm["bits"], "rolloff": rolloff_of(R.info), "class_db": gain_class_db(R.info),
                 "linear": pm["linear"], "pass": pm, "stop": sm, "W": R.W, "tail": R.tailmass, "extent": R.extent,
                 "stream": R.stream, "designed_ok": designed_ok(R.info), "phase": R.info["q"]["phase"],
-                "pb": R.info["q"]["pb"], "sb": R.info["q"]["sb"]}
+                "pb": R.info["q"]["pb"], "sb": R.info["q"]["sb"], "pclass": plan_class(R.info), "flags": finding_flags(R.info)}
     except Exception as e:            # a crash of the measurement is reported by the caller, never swallowed
         import traceback
         return {"cfg": c, "label": cfg_label(c), "error": traceback.format_exc()[-1500:]}
@@ -750,9 +933,10 @@ def job_tone(args):
         if not info.get("engine", "").startswith("cr") or bits_of(info) < 15:
             return {"cfg": c, "label": cfg_label(c), "skipped": "property does not speak (precision < 15 bits)"}
         if f1_exact(info):
-            return {"cfg": c, "label": cfg_label(c), "skipped": "known finding F1 signature"}
+            return {"cfg": c, "label": cfg_label(c), "skipped": "known finding F1 signature", "f1": True}
         d = tone_job(c, **kw)
-        d.update(cfg=c, label=cfg_label(c), kw=kw, class_db=gain_class_db(info), pb=info["q"]["pb"], sb=info["q"]["sb"])
+        d.update(cfg=c, label=cfg_label(c), kw=kw, class_db=gain_class_db(info), pb=info["q"]["pb"], sb=info["q"]["sb"],
+                 pclass=plan_class(info), flags=finding_flags(info))
         return d
     except Exception as e:
         import traceback
